@@ -16,11 +16,13 @@ func init() {
 		Run:   runC03All,
 		Explain: "(a) who-may-call: X509TrustStore.GetCertificates is invoked at exactly one product site; (b) at that site the type argument is the loader's wanted-type input, the name is the part after the first ':' (strings.Cut, or Index/IndexByte + slicing) of an element of the loader's trust-store list input " +
 			"(an input is a parameter, or a field of a parameter object — receiver or options struct of an unexported type, by value or by pointer — that still holds what the caller stored into it; at a call site the input's argument is the call argument or the single value stored into that field before the hand-over, also through an object constructor) " +
-			"(or of the entry parameter of a per-entry loader that forwards exactly what GetCertificates returned and whose closed call sites pass such an element), " +
+			"(or of the entry parameter of a per-entry loader that forwards exactly what GetCertificates returned and whose closed call sites pass such an element); " +
+			"the entry may be cut in place or by a module parse helper that hands the parts back as results or as fields of an unexported struct (by value or pointer) next to an error or ok flag: on every success-capable exit of the helper the component is that part of the helper's parameter, the helper's verdict must guard the load, and what all those exits passed (separator found) then holds at the load; " +
+			"the type filter is decided on values: every path to the load passes the equal edge of a comparison of the wanted-type input with the part before the ':' of the same entry, " +
 			"the call is cut by separator-found and by wanted type == prefix (mismatch never reaches the call), a load error leaves the iteration only through failing exits, failing exits return a nil slice, and the result slice is appended only from those calls; " +
 			"(c) scheme -> store type: ca iff notary.x509, signingAuthority iff notary.x509.signingAuthority, anything else fail-closed (switch/if, a mapping helper, or a constant never-written table with an ok test); tsa only for notary.x509 and only from the timestamp path; the scheme is the verified envelope's; " +
 			"(d) the trust-store list every loader wrapper receives (authenticity and tsa) is, followed upwards through parameters with closed call-site lists, captured variables, fields of unexported state structs and phis, the TrustStores field of one statement S; " +
-			"S is the result of a selection method of the policy document (through selection helpers and parameters); the function that takes S apart hands module code only fields of S, among them name, stores, identities and signatureVerification; " +
+			"S is the result of a selection method of the policy document (through selection helpers and parameters); the function that takes S apart hands module code (as call arguments, or stored into fields of an object of an unexported module struct type) only fields of S, among them name, stores, identities and signatureVerification, and stores no field of another statement anywhere; " +
 			"(e) signature.VerifyAuthenticity receives exactly the loader's certificates (followed through parameters, phis and forwarding layers), an empty set and a verification error are failing results " +
 			"(decided on the value that ends up in the result's error field: literal or result constructor, single exit with an error local), a loader error becomes the Error of an authenticity-typed result " +
 			"(stored into a literal / an object created up front, given to a result constructor, or handed on next to the certificates to a function that fails whenever it is non-nil and cannot be bypassed when the load failed), " +
@@ -103,16 +105,44 @@ func runC03(c *Ctx) {
 	typeIn, okType := c03InputOf(w, args[2])
 	okType = okType && typeIn.of(G)
 	storesIn, storesD, entryParam, okName := c03NameSubject(w, G, args[3], nameD)
+	// fifth pass: the name as a *part* of a listed entry, whoever cut the entry (c03PartOf): part 1 of an entry that is an element
+	// of a list input of G (or G's entry parameter), delivered by a parse helper whose verdict guards the load. The obligation is
+	// the same — the name is what follows the first ':' of a listed entry — decided on the value instead of on its printed form;
+	// from here on the cut is printed in G's frame, the way the engine prints the helper's facts once they are composed into it.
+	g := fi.GuardsOf(L)
+	var entryV ssa.Value
+	if s := c03AfterColon(args[3]); s != nil {
+		entryV = s
+	}
+	if !okName {
+		if pt, isPart := c03PartOf(w, args[3], 0); isPart && pt.k == 1 {
+			gated := true
+			for _, gl := range pt.gates {
+				gated = gated && labelHas(g, gl)
+			}
+			if p, isP := c03StripConv(pt.s).(*ssa.Parameter); isP && p.Parent() == G {
+				entryParam, okName = p, gated
+			} else if in, d, isEl := c03ElemOfInput(w, G, c03StripConv(pt.s)); isEl {
+				storesIn, storesD, okName = in, d, gated
+			}
+			if okName {
+				entryV = pt.s
+				nameD = "call:strings.Cut(" + desc(c03StripConv(pt.s)) + `,const:":")#1`
+				g = c03CopyLabels(g, pt.facts) // what every success-capable exit of the helper has passed holds behind its gate
+			} else if !gated {
+				nameD += " (delivered by a helper whose failure is not tested before the load)"
+			}
+		}
+	}
 	c.Check(okType, "loader/type-argument", "provenance: the store type passed to GetCertificates is the loader's wanted-type parameter", w.InstrPos(L), "type argument is "+typeD)
 	c.Check(okName, "loader/name-argument", "provenance: the store name passed to GetCertificates is strings.Cut(element of the trustStores parameter, \":\") part 2", w.InstrPos(L), "name argument is "+nameD)
 	if !okName || !okType {
 		return
 	}
 	cutBase := strings.TrimSuffix(nameD, "#1")
-	g := fi.GuardsOf(L)
 	c.Evals++
 	c.Check(labelHas(g, "T("+cutBase+"#2)"), "loader/separator", "effect-site gate: GetCertificates is reached only when the separator was found", w.InstrPos(L), "guards: "+summarizeLabels(g, 8))
-	c.Check(labelHas(g, "EQ("+typeD+","+cutBase+"#0)") || labelHas(g, "EQ("+cutBase+"#0,"+typeD+")"), "loader/type-filter",
+	c.Check(labelHas(g, "EQ("+typeD+","+cutBase+"#0)") || labelHas(g, "EQ("+cutBase+"#0,"+typeD+")") || (entryV != nil && c03TypeFilterOnValues(w, fi, L, typeIn, entryV, g)), "loader/type-filter",
 		"effect-site gate: GetCertificates is reached only when the wanted type equals the prefix of the listed store (stores of another type are never loaded)", w.InstrPos(L), "guards: "+summarizeLabels(g, 8))
 	if storesIn.valid() {
 		c03LoaderBody(c, G, L, typeD, storesD, typeIn, storesIn)
